@@ -329,6 +329,11 @@ func finish(r *Run, spec PropSpec, vd, tier string, seed int, start time.Time, o
 			fmt.Printf("  [%s] %s @%s %s\n", o.Status, o.Key, o.Pos, o.Detail)
 		}
 	}
+	if verbose {
+		for _, n := range r.Notes {
+			fmt.Printf("  note: %s\n", n)
+		}
+	}
 	// samples: first few of each status
 	perStatus := map[string]int{}
 	perRule := map[string]int{}
